@@ -58,6 +58,20 @@ CHECKS = {
         "Trusted: a fresh Linter after resetting the ignore-parser singleton as the reference. Configuration files are not changed during a history. Hash seeds are bounded as stated.",
         "DESIGN.md section 3 / C08",
     ),
+    "C05": (
+        "model_checking",
+        "full matrix enumeration linter x option x value x key spelling x carrier on the real CLI; equivalence, monotonicity, precedence and error-exit oracles; option facts transcribed from the documentation",
+        "For every linter section of the documentation-derived catalog the real CLI is run on the linter's documented violating examples under: enabled:false in every (spelling x carrier) combination; every integer threshold swept over 10 values (effect where the documentation's own numbers make the example sensitive, monotone in the documented direction, identical across carriers/spellings); top-level ignore list in every carrier; all ordered carrier pairs for precedence; CLI threshold options against config values and per-language overrides; documented-invalid values and unparsable files in every carrier. The matrix is finite and taken in full.",
+        "Trusted: the catalog (hand/agent-transcribed from docs, see mc/catalog/SPEC.md). A linter whose documented example does not fire is skipped here and reported by C19. Group-level --config is not treated as a carrier.",
+        "DESIGN.md section 3 / C05",
+    ),
+    "C15": (
+        "model_checking",
+        "full matrix: commands x project x settings of all foreign config sections; documented examples x extension spellings x foreign/unsupported extensions x shebang variants; real CLI",
+        "Every command is run on a project holding every documented violating example of every linter: reported rule ids must belong to the command, and the findings must be identical under every setting (absent, disabled, strictest, lenient, unknown keys; each foreign section alone) of all other linters' sections. Every documented example is re-run under upper/mixed-case extensions (same findings), under every foreign-language and unsupported extension (single-language linters and source-analysis rules must be silent), and extensionless with and without a python shebang.",
+        "Trusted: the command -> rule-id-prefix table and the language lists from the docs. Foreign settings use valid values only (invalid values are C05's subject).",
+        "DESIGN.md section 3 / C15",
+    ),
 }
 
 NOT_APPLICABLE: dict[str, str] = {}
